@@ -39,7 +39,25 @@ func (ex *Exec) unop(fr *frame, in *ssa.UnOp, x Value) Value {
 	case token.XOR:
 		return ex.c.BNot(x.(*sym.Term))
 	case token.ARROW:
-		unsupported("channel receive at %s", fr.site(in))
+		ch, _ := x.(*Chan)
+		u := in
+		var v Value
+		ok := true
+		switch {
+		case ch == nil:
+			unsupported("receive from nil channel at %s", fr.site(in))
+		case len(ch.buf) > 0:
+			v = ch.buf[0]
+			ch.buf = ch.buf[1:]
+		case ch.closed:
+			v, ok = ex.zero(u.X.Type().Underlying().(*types.Chan).Elem()), false
+		default:
+			unsupported("channel receive would block (single goroutine) at %s", fr.site(in))
+		}
+		if u.CommaOk {
+			return Tuple{v, ex.c.Bool(ok)}
+		}
+		return v
 	}
 	unsupported("unary op %v", in.Op)
 	return nil
@@ -783,7 +801,10 @@ func (ex *Exec) callBuiltin(fr *frame, fn *ssa.Builtin, args []Value, pos token.
 			}
 			return c.Const(sym.BV(64), uint64(len(x.entries)))
 		case *Chan:
-			return c.Const(sym.BV(64), 0)
+			if x == nil {
+				return c.Const(sym.BV(64), 0)
+			}
+			return c.Const(sym.BV(64), uint64(len(x.buf)))
 		}
 		ex.badCell(fr, args[0], "len")
 	case "cap":
@@ -795,7 +816,10 @@ func (ex *Exec) callBuiltin(fr *frame, fn *ssa.Builtin, args []Value, pos token.
 		case *Value:
 			return c.Const(sym.BV(64), uint64(len((*x).(Array))))
 		case *Chan:
-			return c.Const(sym.BV(64), 0)
+			if x == nil {
+				return c.Const(sym.BV(64), 0)
+			}
+			return c.Const(sym.BV(64), uint64(x.capacity))
 		}
 		ex.badCell(fr, args[0], "cap")
 	case "delete":
@@ -856,7 +880,15 @@ func (ex *Exec) callBuiltin(fr *frame, fn *ssa.Builtin, args []Value, pos token.
 		}
 		return args[0]
 	case "close":
-		unsupported("close(chan)")
+		ch, _ := args[0].(*Chan)
+		if ch == nil {
+			ex.rtPanic(fr, "close of nil channel")
+		}
+		if ch.closed {
+			ex.rtPanic(fr, "close of closed channel")
+		}
+		ch.closed = true
+		return nil
 	}
 	unsupported("builtin %s", fn.Name())
 	return nil
